@@ -27,12 +27,23 @@ use crate::parser::visitor::Visitor;
 const MAX_SIGNATURE_LINE_LEN: usize = 100;
 
 pub(crate) fn format(src: &str, path: &Path) -> String {
-    // Phase 0: Wrap long single-line function/method signatures onto
-    // multiple lines before any other formatting. This requires
-    // re-parsing afterwards because line numbers and offsets shift.
-    let src_owned = wrap_long_signatures(src, path);
-    let src = src_owned.as_str();
+    let formatted = format_without_wrapping(src, path);
 
+    // Wrap long single-line function/method signatures onto multiple
+    // lines. We do this after the other phases, so the line length we
+    // measure is the final one (e.g. `x:Int` has become `x: Int`).
+    // Wrapping shifts line numbers and offsets, so format again
+    // afterwards.
+    let wrapped = wrap_long_signatures(&formatted, path);
+    if wrapped == formatted {
+        return formatted;
+    }
+
+    format_without_wrapping(&wrapped, path)
+}
+
+/// Apply all the formatting phases except signature wrapping.
+fn format_without_wrapping(src: &str, path: &Path) -> String {
     let mut id_gen = IdGenerator::default();
     let (_vfs, vfs_path) = Vfs::singleton(path.to_owned(), src.to_owned());
 
